@@ -320,6 +320,15 @@ def enumerations(tier, shard, nshards):
         fasta2 = ">longread\nAAAAA%s%s%sTTTTT\n>longpath\nAAAAA%s%sTTTTT\n" % (
             big[1:30001], ins, big[30001:59991], big[1:30001], big[30011:60001])
         yield {"gfa": gfa, "gaf": gaf2, "fasta": fasta2, "cores": 1, "batch": 1, "kind": "sim"}
+        # records without any optional field: a realigned one followed, in the same batch, by one that is passed through
+        gaf3 = [
+            "t1\t60010\t3\t13\t+\t>s1\t60001\t1\t11\t10\t10\t60",
+            "over\t60010\t3\t60004\t+\t>s1>s2\t60007\t1\t60002\t12\t99\t7",
+            "t2\t60010\t3\t13\t+\t>s1\t60001\t1\t11\t10\t10\t60",
+        ]
+        fasta3 = ">t1\nAAA%sTTT\n>t2\nAAA%sTTT\n>over\nAAA%sTTTTTTTTT\n" % (big[1:11], big[1:11], big[1:60001] + "A")
+        for batch in (3, 1):
+            yield {"gfa": gfa, "gaf": gaf3, "fasta": fasta3, "cores": 1, "batch": batch, "kind": "sim"}
         # a small real-process case with reverse steps
         yield {"gfa": "S\ta\tACGTTGCA\tLN:i:8\tSN:Z:chr1\tSO:i:0\tSR:i:0\nS\tb\tGGATC\tLN:i:5\tSN:Z:chr1\tSO:i:8\tSR:i:0\nL\ta\t+\tb\t+\t0M\n",
                "gaf": ["r1\t9\t1\t8\t+\t<b<a\t13\t2\t9\t7\t7\t60\tcg:Z:7="], "fasta": ">r1\nTTCCTGCAA\n", "cores": 2, "batch": 1,
